@@ -179,7 +179,7 @@ Proof. exact (fun is_stun => divert_iff sha256 is_stun sha256_nonempty). Qed.
 Print Assumptions C20_sha256_divert_iff.
 
 (* ServerPuncher: an event is forwarded only to the channel registered under its own attempt id,
-   every other channel is unchanged; removeAttempt clears both registries. *)
+   every other channel is unchanged. *)
 Theorem C20_server_routes_by_id : forall H is_stun s s' o,
   sstep H is_stun s SDispatch = Ok (s', o) ->
   d_reg (s_conn s') = d_reg (s_conn s) /\
@@ -194,8 +194,42 @@ Theorem C20_server_routes_by_id : forall H is_stun s s' o,
 Proof. exact dispatch_routes. Qed.
 Print Assumptions C20_server_routes_by_id.
 
+(* removeAttempt id: the entry stored under exactly this id string is gone from both registries;
+   every other id - in particular one that differs only in letter case - and both event queues
+   are untouched. *)
 Theorem C20_server_remove : forall H is_stun s s' o id,
   sstep H is_stun s (SRemove id) = Ok (s', o) ->
-  att_find id (s_att s') = None /\ reg_find id (d_reg (s_conn s')) = None.
+  att_find id (s_att s') = None /\ reg_find id (d_reg (s_conn s')) = None /\
+  (forall id', id' <> id -> att_find id' (s_att s') = att_find id' (s_att s) /\
+                            reg_find id' (d_reg (s_conn s')) = reg_find id' (d_reg (s_conn s))) /\
+  d_ev (s_conn s') = d_ev (s_conn s) /\ d_stun (s_conn s') = d_stun (s_conn s).
 Proof. exact server_remove. Qed.
 Print Assumptions C20_server_remove.
+
+(* addAttempt id m is accepted iff id is non-empty, m is well formed and nothing is registered
+   under exactly this string; it is then stored in both registries under exactly this string
+   (so the removeAttempt of the same string removes it); a rejected call changes nothing. *)
+Theorem C20_server_add_exact : forall H is_stun s id m s' ok,
+  sstep H is_stun s (SAdd id m) = Ok (s', SOAdd ok) ->
+  (ok = true <-> att_find id (s_att s) = None /\ id <> [] /\ is_ok (decode_meta m) = true) /\
+  (ok = true -> att_find id (s_att s') = Some [] /\ reg_find id (d_reg (s_conn s')) = Some m) /\
+  (ok = false -> s' = s).
+Proof. exact server_add_exact. Qed.
+Print Assumptions C20_server_add_exact.
+
+(* Last sentence, for ServerPuncher.Respond (respond_trace = addAttempt id; anything; the deferred
+   removeAttempt id), from any state and whatever happens in between: the run never fails; once
+   Respond has returned, id is in neither registry, a datagram that decodes under no other
+   registered attempt (a late or retransmitted punch packet of the finished attempt) is handed to
+   the reader unchanged and changes nothing, and the same id can be registered again. *)
+Theorem C20_server_respond_done : forall H is_stun, (forall x, H x <> []) ->
+  forall s0 id m mid, keys_nodup (d_reg (s_conn s0)) ->
+  exists s outs, srun H is_stun s0 (respond_trace id m mid) = Ok (s, outs) /\
+    att_find id (s_att s) = None /\ reg_find id (d_reg (s_conn s)) = None /\
+    (forall p from pick, is_stun p = false ->
+       (forall id' m' ty pad, In (id', m') (d_reg (s_conn s)) -> decode_punch H p m' = Ok (ty, pad) -> id' = id) ->
+       sstep H is_stun s (SConn (ARecv p from pick)) = Ok (s, SOConn (OPass p from))) /\
+    (forall m', id <> [] -> is_ok (decode_meta m') = true ->
+       exists s', sstep H is_stun s (SAdd id m') = Ok (s', SOAdd true)).
+Proof. exact respond_done. Qed.
+Print Assumptions C20_server_respond_done.
